@@ -11,3 +11,5 @@ UNDECIDED = "behaviour on a concrete file; query-sequence independence beyond th
 ASSUMPTIONS = [K.A_BYTES, K.A_PRED, K.A_TABLE]
 OBLIGATIONS = [K.WIG_KEEP, K.OVERLAPS, K.QUERY_ARGS, K.WIG_BLOCK_R] + K.CIR_READER + [K.READER_COMMON[0]]
 OBLIGATIONS = OBLIGATIONS + [K.SEARCH_ORDER, K.CACHE, K.CACHED_SIBS, K.INTERVAL_SIBS, K.VALUES_ARRAY, K.BLOCK_DATA]
+OBLIGATIONS = OBLIGATIONS + [K.REOPEN]
+OBLIGATIONS = OBLIGATIONS + [K.ARG_NAMES]
